@@ -395,7 +395,7 @@ func fixtureHits() (mapBad, mapOK, src int, err error) {
 }
 
 func init() {
-	register(&Rule{ID: "C19.maprange", Props: []string{"C19"}, Floor: 4,
+	register(&Rule{ID: "C19.maprange", Props: []string{"C19"}, Floor: 2,
 		Doc: "every range over a map in the state machine and app wiring has an order-insensitive body",
 		Run: func(e *Engine, r *RuleRun) {
 			for _, u := range e.astUnits(true) {
